@@ -168,10 +168,24 @@ PtFrom(d, e, Dv, lv, i) ==       \* sequences (1-based); returns <<D, l, fail>>
           ELSE IF i = Len(d) THEN <<Append(Dv, Di), lv, -1>>
           ELSE IF e[i] % Di # 0 THEN <<Dv, lv, -2>>
           ELSE PtFrom(d, e, Append(Dv, Di), Append(lv, e[i] \div Di), i + 1)
+\* determinant of the leading k x k block of a tridiagonal matrix (three-term recurrence)
+RECURSIVE TdDet(_, _, _, _)
+TdDet(d, dl, du, k) ==
+  IF k = 0 THEN 1
+  ELSE IF k = 1 THEN d[1]
+  ELSE d[k] * TdDet(d, dl, du, k - 1) - dl[k - 1] * du[k - 1] * TdDet(d, dl, du, k - 2)
 TdLemma ==
   Fam = "td" =>
     LET S == PtFrom(I.pd, I.pe, <<>>, <<>>, 1)
-    IN IF I.ok THEN S[3] = -1 /\ S[1] = I.D /\ S[2] = I.l ELSE S[3] = I.kbad
+    IN /\ IF I.ok THEN S[3] = -1 /\ S[1] = I.D /\ S[2] = I.l ELSE S[3] = I.kbad
+       \* variant 2 (zero diagonal): the structure that forces an interchange at every step, and
+       \* non-singularity (the determinant itself for n <= 6, where it fits TLC's integers; for
+       \* larger n it is the product over the pairs of -dl*du, times the last diagonal entry
+       \* for odd n, by the same recurrence)
+       /\ I.v = 2 =>
+            /\ \A i \in 1 .. I.n - 1 : I.gdl[i] # 0 /\ I.gdu[i] # 0
+            /\ \A i \in 1 .. I.n : (I.gd[i] # 0) = (i = I.n /\ I.n % 2 = 1)
+            /\ I.n <= 6 => TdDet(I.gd, I.gdl, I.gdu, I.n) # 0
 
 AuxLemma ==
   Fam = "aux" =>
